@@ -622,3 +622,52 @@ Lemma annot_widens_neg g g' : annot_le g g' -> forall x,
 Proof.
   intros LE x L N. destruct (annot_widens g g' LE x L) as [L'|E]; [destruct (N L') | exact E].
 Qed.
+
+(* liveness is decidable (by running the traversal) *)
+Lemma live_dec g x : live g x \/ ~ live g x.
+Proof.
+  destruct (mark_total_reach g) as [L [_ [H _]]].
+  destruct (mem item_eqb x L) eqn:M.
+  - left. apply H. apply (mem_In item_eqb item_eqb_eq). exact M.
+  - right. intro Lx. apply H in Lx. apply (mem_In item_eqb item_eqb_eq) in Lx. congruence.
+Qed.
+
+(* the sharp form: the witness is itself dead in the annotated graph, i.e. what
+   additionally disappears hangs on an item that an annotation REMOVED *)
+Lemma annot_widens_sharp g g' : annot_le g g' -> forall x,
+  live g x -> ~ live g' x ->
+  exists a, changed g g' a /\ live g a /\ ~ live g' a /\ path g a x.
+Proof.
+  intros LE x L. induction L as [s Hs | y x Ly IH E]; intro N.
+  - exfalso. apply N. apply live_entry. destruct LE as [_ [_ [En _]]]. rewrite <- En. exact Hs.
+  - destruct (live_dec g' y) as [L'|NL'].
+    + (* the predecessor survives: the edge itself must have been cut, so x is the changed item *)
+      assert (Lx : live g x) by (eapply live_edge; eauto).
+      destruct (annot_widens g g' LE x Lx) as [Lx'|_]; [destruct (N Lx')|].
+      exists x. split; [|split; [exact Lx | split; [exact N | apply path_refl]]].
+      destruct E as [s f c F R C | s f t F R Hin | s f i p r F R Hn Hin Hf | s f i p F R Hn K | s i p P | s i p t j P Hd].
+      * exfalso. apply N. destruct (file_fwd g g' LE s f F) as [f' [F' FL]]. pose proof FL as [E1 [_ [E3 _]]].
+        eapply live_edge; [exact L' | eapply e_css_stub; eauto; congruence].
+      * exfalso. apply N. destruct (file_fwd g g' LE s f F) as [f' [F' FL]]. pose proof FL as [E1 [_ [_ [E4 _]]]].
+        eapply live_edge; [exact L' | eapply e_css_import; eauto; congruence].
+      * destruct (file_fwd g g' LE s f F) as [f' [F' FL]]. destruct (part_fwd f f' i p FL Hn) as [p' [Hn' PL]].
+        pose proof FL as [E1 _]. pose proof PL as [_ [I _]]. destruct Hf as [A [B C]].
+        destruct (has_effects g' (ir_target r)) eqn:H'.
+        -- exfalso. apply N. eapply live_edge; [exact L' | eapply e_import; eauto; try congruence]. split; [|split]; auto.
+        -- apply ch_file; auto.
+      * destruct (file_fwd g g' LE s f F) as [f' [F' FL]]. destruct (part_fwd f f' i p FL Hn) as [p' [Hn' PL]].
+        pose proof FL as [E1 [E2 _]].
+        destruct (must_keep_dec g' f' p') as [K'|NK'].
+        -- exfalso. apply N. eapply live_edge; [exact L' | eapply e_keep; eauto; congruence].
+        -- destruct K as [K|[A [B C]]].
+           ++ eapply ch_part; eauto.
+              destruct (removable_dec g' p') as [Rm|Rm]; [exact Rm|]. exfalso. apply NK'. left; exact Rm.
+           ++ exfalso. apply NK'. right. destruct PL as [Ef _]. destruct LE as [T _].
+              rewrite <- Ef, <- T, <- E2. auto.
+      * exfalso. apply N. destruct (get_part_fwd g g' LE s i p P) as [p' [P' _]].
+        eapply live_edge; [exact L' | eapply e_part_file; eauto].
+      * exfalso. apply N. destruct (get_part_fwd g g' LE s i p P) as [p' [P' [_ [_ [D _]]]]].
+        eapply live_edge; [exact L' | eapply e_dep; eauto; congruence].
+    + destruct (IH NL') as [a [Ca [La [Na Pa]]]].
+      exists a. split; [exact Ca | split; [exact La | split; [exact Na | eapply path_step; eauto]]].
+Qed.
